@@ -63,6 +63,10 @@ Fixpoint scan (n : nat) (pre_rev : list line) (l : list line) : scan_result :=
 
 Definition mk_branch (m : mnem) (l : string) : line :=
   Ins (mkI m l 2%N (Some 3%N) 2%N false).
+(** the BEQ of a repaired "lower or equal" pair is protected: the branch after it needs the flags of
+    the same compare, which must survive a later optimisation of an inlined copy *)
+Definition mk_branch_prot (m : mnem) (l : string) : line :=
+  Ins (mkI m l 2%N (Some 3%N) 2%N true).
 Definition mk_jmp (l : string) : line :=
   Ins (mkI JMP l 3%N None 3%N false).
 
@@ -85,7 +89,7 @@ Definition repair (nfix : N) (b : instr) (tail : list line) : list line * list l
     | BEQ => ([mk_branch BNE fixl], tail)                 (* Eq -> Neq *)
     | BMI | BCC =>
         if lte_pair
-        then ([mk_branch BEQ fixup; mk_branch ge fixl; Lbl fixup], List.tl tail)   (* Lte -> Gt *)
+        then ([mk_branch_prot BEQ fixup; mk_branch ge fixl; Lbl fixup], List.tl tail)   (* Lte -> Gt *)
         else ([mk_branch ge fixl], tail)                  (* Lt -> Gte *)
     | _ => ([mk_branch lt fixl], tail)                    (* BPL/BCS: Gte -> Lt *)
     end in
